@@ -84,6 +84,7 @@ def parse_step_obs(chk, tag, states=range(0, 16), checks="none", callbacks=False
             add(4, "INTLIST", 2, extra=("WITH_VALIDCB",))
     if 5 in S:
         add(5, "SEC", 1)
+        add(5, "SEC", 0)  # a single section whose instance was removed (cfg_rmsec) and is created again
         for nv in (0, 1, 2):
             add(5, "SECM", nv)
         # titled sections: existing titles "A","B"; the new title is a concrete parameter
